@@ -289,3 +289,5 @@ func (b *capBuf) Write(p []byte) (int, error) {
 	}
 	return b.Buffer.Write(p)
 }
+
+func bytesReader(b []byte) io.Reader { return bytes.NewReader(b) }
